@@ -44,7 +44,21 @@ EXPECTED_IS_OPTIONAL = '''def is_optional(typ: Type, resolved_type_params: Optio
     return False'''
 
 
+# (not in /repo yet: fixes/C08-typevar-bound-nullable.diff) what a variable nobody binds is packed as
+EXPECTED_TYPE_VAR_MEANING = '''def get_type_var_meaning(typ: Type) -> Type:
+    if not is_type_var(typ) or is_type_var_any(typ):
+        return typ
+    constraints = getattr(typ, '__constraints__')
+    if constraints:
+        return Union[constraints]
+    if type_var_has_default(typ):
+        return get_type_var_default(typ)
+    return getattr(typ, '__bound__')'''
+
+
 class K17Translator(FnTranslator):
+    helpers = None
+
     def expr(self, e):
         key = ast.unparse(e)
         if key == "typing.Any":
@@ -90,6 +104,13 @@ class K17Translator(FnTranslator):
             # (KTuple ["TypeVar"; t]) becomes t, everything else (incl. a variable left unbound) stays (PyK_c08.ty_real)
             pre, a = self.expr(e.args[1])
             return pre, f"(ty_real {a})"
+        if f == "get_type_var_meaning" and len(e.args) == 1:
+            # abstraction: the bounded variable left unbound (KTuple ["TypeVarBound"; t]) becomes its bound t, everything else
+            # stays (PyK_c08.ty_unbound); only while the helper's source text is the expected one
+            if self.helpers is None or ast.unparse(find_function(self.helpers, "get_type_var_meaning")) != EXPECTED_TYPE_VAR_MEANING:
+                raise Unsupported("helpers.get_type_var_meaning: unexpected source text")
+            pre, a = self.expr(e.args[0])
+            return pre, f"(ty_unbound {a})"
         if f == "is_type_var_any" and len(e.args) == 1:
             pre, a = self.expr(e.args[0])
             return pre, f"(KBool (ty_is_typevar_any {a}))"
@@ -118,6 +139,7 @@ def gen() -> str:
         raise Unsupported("loop shape")
     k = Kernel(func="is_field_nullable", coq_name="is_field_nullable", params=["a_default", "v_ftype"])
     tr = K17Translator(k, module)
+    tr.helpers = helpers
     tr.locals.add("ftype")
     # the if / elif chain: every branch rebinds ftype, the final else breaks
     node = loop.body[0]
